@@ -270,7 +270,7 @@ def anyMapMember (i : Nat) (f : Dt → Dt) : Any → Any
   | a => a
 
 def applyStep (a : Any) (st : String) : Option Any :=
-  if st == "hash" || st == "set" || st == "copy" || st == "pickle" then some a
+  if st == "hash" || st == "set" || st == "copy" || st == "pickle" || st == "deepcopy" then some a
   else if st.startsWith "m" && (st.splitOn "/").length == 2 then
     match st.splitOn "/" with
     | [mi, m] => do
